@@ -26,7 +26,6 @@ package bfe_spdy
 import (
 	"bytes"
 	"fmt"
-	"os"
 	"strings"
 	"testing"
 
@@ -735,12 +734,6 @@ func TestVerifC40(t *testing.T) {
 	for i := range c40fams {
 		f := &c40fams[i]
 		depth := r.Pick(f.depthQ, f.depthT)
-		if only := os.Getenv("C40_ONLY"); only != "" && !r.Replaying() { // debugging aid: "outc:7"
-			if !strings.HasPrefix(only, f.name+":") {
-				continue
-			}
-			fmt.Sscanf(only[len(f.name)+1:], "%d", &depth)
-		}
 		complete := true
 		var nth int64
 		n := vk.ExploreSharded(r, f.name, c40shardDep, -1, func(ch *vk.Chooser) {
